@@ -232,6 +232,11 @@ func evalStaged(c stagedCase) (values []int, reported time.Duration, problem str
 	for _, o := range c.Offsets {
 		values = append(values, rateFn(at(c.BaseNs, o)))
 	}
+	if startPtr != nil && !startPtr.Equal(at(c.BaseNs, 0)) {
+		// the start instant is the caller's value: a profile must not move it (the caller may build the
+		// next profile from the same variable)
+		return values, reported, fmt.Sprintf("the caller's start time variable was changed from %v to %v by querying the profile", at(c.BaseNs, 0), *startPtr)
+	}
 	return values, reported, ""
 }
 
